@@ -67,6 +67,10 @@ def classify(rq, c):
         if _is_int(q):
             if not (0 <= q <= 2):
                 inv.append("qos-range")
+        elif isinstance(q, float) and q not in (0.0, 1.0, 2.0):
+            inv.append("qos-range")          # 2.5 is as far outside 0..2 as 3 is
+        elif isinstance(q, str):
+            inv.append("qos-type")
         else:
             rq.soft = True
         msg = a["message"]
